@@ -87,6 +87,14 @@ def run(chk, replay=None):
             w[j // nb][j % nb] += 1
         cat = B.catalog(w, nc, nb, rng)
         fa, fb = make(shape, a), make(shape, b)
+        # every third pair is rescaled first (forecast.scale(c) / a scaled total): the comparison is between the forecasts
+        # as they stand, i.e. with rates a*c
+        if t % 3 == 1 and not same and style != 'dyadic':
+            ca, cb = rng.choice([(0.4, 1.0), (1.0, 2.5), (0.5, 3.0)])
+            fa.scale(ca)
+            fb.scale(cb)
+            a = [float(numpy.float64(x) * ca) for x in a]
+            b = [float(numpy.float64(x) * cb) for x in b]
         # event order in the catalog is shuffled: the bins sequence handed to TLC is the multiset in bin order
         ev_bins = sorted(j + 1 for j in bins)
         alpha = an / ad
